@@ -94,6 +94,7 @@ type PageTree struct {
 	resolver ObjectResolver
 	pages    []*Page      // Cached flattened page list
 	visited  map[int]bool // object numbers of the nodes already traversed (cycle guard)
+	depth    int          // current depth of traversePageNode
 }
 
 // NewPageTree creates a new page tree from the root pages dictionary
@@ -168,9 +169,23 @@ func (t *PageTree) loadPages() error {
 	return nil
 }
 
+// maxPageTreeDepth is the deepest page tree that is traversed.
+const maxPageTreeDepth = 10000
+
 // traversePageNode recursively traverses a page tree node
 // parent is the parent Pages dictionary for inheritable attributes
 func (t *PageTree) traversePageNode(node core.Dict, parent core.Dict) error {
+	// The walk recurses once per level of the tree and the visited set only
+	// bounds the number of nodes, not the depth: a "tree" that is a list of two
+	// million /Pages nodes with one kid each (19 MB in object streams) ended the
+	// process with a stack overflow. Real page trees are balanced and a few
+	// levels deep.
+	if t.depth >= maxPageTreeDepth {
+		return fmt.Errorf("page tree deeper than %d levels", maxPageTreeDepth)
+	}
+	t.depth++
+	defer func() { t.depth-- }()
+
 	// Get the type to determine if this is a Pages node or Page leaf
 	typeObj := node.Get("Type")
 	if typeObj == nil {
